@@ -75,13 +75,22 @@ fn finding_for(c: &WsCase, symptom: &str) -> Option<&'static str> {
     // globals declared in several files: declaration / overload order and table-vs-member typing follow analysis order
     // (incl. one more/less `owner_members` entry: the member table of `G = G or {}` is owned by the table element or
     // by the global path depending on which file was analysed last; bounded, does not grow with repetitions)
-    const GLOBAL: &[&str] = &["global-type", "global-decl", "globals", "global-member-type", "global-type-in-diag", "count:member.owner_members+1"];
+    const GLOBAL: &[&str] = &["global-type", "global-decl", "globals", "global-member-type", "global-type-in-diag", "global-own-member-list", "count:member.owner_members+1",
+        // one member of the multiply-declared global gains (or loses) its owner: one Owner item, one current-owner
+        // entry, one item under an existing owner
+        "count:member.in_filed.items+1", "count:member.member_current_owner+1", "count:member.owner_members.items+1"];
     // merge_def_type_with_table re-owns another file's members to the class; never undone
     const BOUND: &[&str] = &["undefined-field-diag", "type-members", "required-field-type"];
     // one re-owned member = one more owner item under the other file, one more owner / owner item
     let bound_count = ["count:member.in_filed.items+", "count:member.owner_members+", "count:member.owner_members.items+"].iter().any(|p| symptom.starts_with(p));
     if class_bound_to_required_table(c) && (BOUND.contains(&symptom) || bound_count) {
         return Some("class-bound-to-required-table/member-reowning");
+    }
+    // members of a global table contributed by another file are migrated to the table's Element owner; when the
+    // declaring file is edited / removed that owner entry (keyed by the old table) survives with the foreign members
+    let stale_owner_count = ["count:member.in_filed.items+", "count:member.owner_members+", "count:member.owner_members.items+"].iter().any(|p| symptom.starts_with(p));
+    if foreign_members_of_global_table(c) && stale_owner_count {
+        return Some("foreign-members-of-global-table/stale-table-owner");
     }
     if type_shared_across_files(c) && PROPERTY.contains(&symptom) {
         return Some("type-in-several-files/doc-property");
@@ -344,6 +353,8 @@ fn oracle_c08(c: &WsCase, report: &mut Report) -> Fails {
     }
     let base_dump = dump(&sim.a, &qs);
     let base_sizes = sizes(&sim.a);
+    let dbg = std::env::var("VH_DEBUG").is_ok();
+    let base_members = if dbg { format!("{:#?}", sim.a.compilation.get_db().get_member_index()) } else { String::new() };
     let mut pending_edit = false;
     for (j, op) in c.ops.iter().enumerate().skip(k) {
         sim.apply(c, op);
@@ -369,6 +380,17 @@ fn oracle_c08(c: &WsCase, report: &mut Report) -> Fails {
             _ => "op".into(),
         };
         let now = sizes(&sim.a);
+        if dbg {
+            let after = format!("{:#?}", sim.a.compilation.get_db().get_member_index());
+            let b: HashSet<&str> = base_members.lines().collect();
+            let al: Vec<&str> = after.lines().collect();
+            eprintln!("---- step {j} sizes {:?}", diff_sizes(&base_sizes, &now, &[]));
+            for (i, l) in al.iter().enumerate() {
+                if !b.contains(l) {
+                    eprintln!("MEMBER+ @{i}\n{}", al[i.saturating_sub(10)..(i + 10).min(al.len())].join("\n"));
+                }
+            }
+        }
         if let Some(x) = grown_sizes(&base_sizes, &now) {
             fails.push_s(format!("step {j}: after {what} the amount of indexed state grew: {x}"), count_symptoms(&x));
         }
@@ -421,6 +443,11 @@ fn oracle_c09(c: &WsCase, report: &mut Report) -> Fails {
         });
     }
     let files = live_files(&sim, c);
+    // C11 exclusion: the fresh analysis this history is compared with must itself be deterministic
+    if !fresh_deterministic(&files, &qs, c.strict) {
+        report.count("excluded_nondeterministic_fresh_analysis_of_final_files");
+        return fails;
+    }
     let f = fresh(&files, c.strict);
     // the path <-> id maps of the Vfs keep closed files (ids are never reused); not indexed state
     let ignore = ["vfs.file_id_map", "vfs.file_path_map"];
